@@ -33,7 +33,7 @@ import (
 // probe is a *recipe*: the bytes are rebuilt from it for the hour the run observes.
 type probe struct {
 	Class   string   `json:"class"`
-	Kind    string   `json:"kind"` // junk | hs | low | fill (Len direct TestAndSet calls with fresh random 16-byte values on the bridge's replay filter)
+	Kind    string   `json:"kind"` // junk | hs | low | cburst (Len DISTINCT genuine handshakes plus duplicates up to 16 conns, completing simultaneously) | fill (Len direct TestAndSet calls with fresh random 16-byte values on the bridge's replay filter)
 	Seed    uint64   `json:"seed"`
 	Len     int      `json:"len,omitempty"`      // junk length
 	KeySeed string   `json:"key_seed,omitempty"` // hs: 32 bytes on which NewKeypair(true) succeeds at once
@@ -42,6 +42,7 @@ type probe struct {
 	Ident   string   `json:"ident,omitempty"` // "" | otherB | otherID
 	Mut     string   `json:"mut,omitempty"`   // trunc:n | ext:n | flip:pos:bit
 	LowIdx  int      `json:"low_idx,omitempty"`
+	Member  int      `json:"member,omitempty"` // same_as of a cburst: which of its distinct handshakes
 	SameAs  int      `json:"same_as"`          // >= 0: byte-identical to the stream of that earlier probe
 	Cuts    []int    `json:"cuts,omitempty"`   // chunk sizes (rest in one chunk)
 	Script  []string `json:"script,omitempty"` // c = next chunk, t = deadline fires, e = EOF, s<ms> = sleep
@@ -78,6 +79,7 @@ func cint(name string) int {
 // ---------------------------------------------------------------- building a probe's byte stream
 
 type built struct {
+	members [][]byte // cburst: the distinct handshakes
 	wire  []byte
 	cli   string // reference client session (hs probes), for verifying the answer
 	marks []int
@@ -91,8 +93,17 @@ func buildProbe(w *worker, id o4h.Identity, p probe, hour int64, earlier []built
 		if p.SameAs >= len(earlier) {
 			return b, fmt.Errorf("same_as out of range")
 		}
-		b.wire = append([]byte(nil), earlier[p.SameAs].wire...)
-		b.marks = earlier[p.SameAs].marks
+		if ms := earlier[p.SameAs].members; ms != nil {
+			if p.Member < 0 || p.Member >= len(ms) {
+				return b, fmt.Errorf("member out of range")
+			}
+			b.wire = append([]byte(nil), ms[p.Member]...)
+			n := len(b.wire)
+			b.marks = []int{32, n - 32, n - 16, n}
+		} else {
+			b.wire = append([]byte(nil), earlier[p.SameAs].wire...)
+			b.marks = earlier[p.SameAs].marks
+		}
 	case p.Kind == "junk":
 		b.wire = rng.Bytes(p.Len)
 	case p.Kind == "hs":
@@ -262,6 +273,10 @@ func runGroup(w *worker, g group, record bool) bool {
 		fill bool
 		flen int
 		now  int64
+		cb   []srvh.BurstRes // cburst: per conn
+		cbOf []int           // cburst: which distinct handshake each conn carried
+		cbM  [][]byte
+		cbC  []string // reference client sessions of the distinct handshakes
 	}
 	var done []pending
 	for i, p := range g.Probes {
@@ -274,6 +289,38 @@ func runGroup(w *worker, g group, record bool) bool {
 			_, fl := replayfilter.VerifLen(filter)
 			earlier = append(earlier, built{})
 			done = append(done, pending{i: i, p: p, fill: true, flen: fl, now: srvh.NowNs()})
+			continue
+		}
+		if p.Kind == "cburst" {
+			crng := vlib.NewRng(p.Seed)
+			var members [][]byte
+			var clis []string
+			for k := 0; k < p.Len; k++ {
+				cli := w.ref.Fresh("c")
+				rep := w.ref.CliNew(cli, id.NodeID, id.Pub, srvh.ClientTape(crng, vlib.Pick(crng, keySeeds), crng.Range(77, 140)), hour+int64(vlib.Pick(crng, []int{0, 0, -1, 1})))
+				if rep.Class != "ok" {
+					violate("probe-build", "correspondence", "reference client: "+rep.Raw, g, i, w)
+					return true
+				}
+				members = append(members, rep.Data)
+				clis = append(clis, cli)
+			}
+			var blobs [][]byte
+			var of []int
+			for k := 0; k < 16; k++ {
+				m := k % p.Len
+				if k >= p.Len {
+					m = crng.Intn(p.Len)
+				}
+				blobs = append(blobs, members[m])
+				of = append(of, m)
+			}
+			res, h0, h1 := srvh.BurstOf(sf, blobs)
+			if h0 != hour || h1 != hour {
+				return false
+			}
+			earlier = append(earlier, built{members: members})
+			done = append(done, pending{i: i, p: p, cb: res, cbOf: of, cbM: members, cbC: clis, now: srvh.NowNs()})
 			continue
 		}
 		b, err := buildProbe(w, id, p, hour, earlier)
@@ -303,6 +350,49 @@ func runGroup(w *worker, g group, record bool) bool {
 			if n != d.flen {
 				violate("replay-filter-size-differs", "correspondence",
 					fmt.Sprintf("after %d direct TestAndSet calls with fresh values the replay filter holds %d entries, the model %d (%s)", d.p.Len, d.flen, n, how), g, d.i, w)
+			}
+			continue
+		}
+		if d.cb != nil {
+			// S: every distinct genuine handshake is answered exactly once — its duplicates are replays
+			nAns := make([]int, len(d.cbM))
+			for k, br := range d.cb {
+				m := d.cbOf[k]
+				if br.OK && len(br.Wire) > 0 {
+					nAns[m]++
+					if nAns[m] == 1 {
+						if rep := w.ref.CliFeed(d.cbC[m], br.Wire); rep.Class != "ok" {
+							violate("answer-rejected-by-reference-client", "impl-oracle",
+								fmt.Sprintf("bridge seed %d, probe #%d cburst member %d: the reference client does not accept the answer (%s)", g.IdSeed, d.i, m, rep.Raw), g, d.i, w)
+						}
+					}
+				} else if len(br.Wire) != 0 {
+					violate("bytes-written-to-invalid-peer", "impl-oracle",
+						fmt.Sprintf("bridge seed %d, probe #%d cburst conn %d: %d bytes written although WrapConn failed (%s)", g.IdSeed, d.i, k, len(br.Wire), br.Class), g, d.i, w)
+				}
+			}
+			for m, n := range nAns {
+				r.Case(fmt.Sprintf("%d/%d/cburst/%d", g.IdSeed, d.i, m), true)
+				r.Count("class", "concurrent-genuine")
+				switch {
+				case n == 0:
+					violate("valid-handshake-not-answered", "impl-oracle",
+						fmt.Sprintf("bridge seed %d, probe #%d: a genuine handshake submitted together with %d others on a fresh bridge was not answered", g.IdSeed, d.i, len(d.cb)-1), g, d.i, w)
+				case n > 1:
+					violate("bytes-written-to-invalid-peer", "impl-oracle",
+						fmt.Sprintf("bridge seed %d, probe #%d: %d simultaneous copies of one handshake were answered (all but one are replays) on a bridge that remembered nothing", g.IdSeed, d.i, n), g, d.i, w)
+				}
+				// model: the same handshakes one after the other (the session key is immaterial here)
+				tape := vlib.NewRng(d.p.SrvSeed+uint64(m)).Bytes(32*40 + 8*8 + cint("serverMaxPadLength") + 8)
+				mr := w.srv.ConnRun(fname, d.now+int64(m), tape, []string{fmt.Sprintf("r:%s:%d:%d", vlib.Hex(d.cbM[m]), d.now+int64(m), hour)})
+				if mr.ErrClass != "ok" {
+					violate("model-impl-disagree/concurrent-genuine", "correspondence",
+						fmt.Sprintf("bridge seed %d, probe #%d member %d: model %s", g.IdSeed, d.i, m, mr.Render()), g, d.i, w)
+				}
+				r.Validated(1)
+			}
+			for _, c := range d.cbC {
+				w.ref.Drop(c)
 			}
 			continue
 		}
@@ -702,6 +792,19 @@ func genCapGroup(rng *vlib.Rng, maxFilter int) group {
 	return g
 }
 
+// genConcGroup: the wire-level view of concurrent arrivals on a bridge that remembers nothing:
+// Len distinct genuine handshakes plus duplicates (16 conns) complete at the same instant, then
+// every one of them is replayed byte for byte: each replay must be met with silence.
+func genConcGroup(rng *vlib.Rng) group {
+	g := group{IdSeed: rng.U64()}
+	n := rng.Range(4, 8)
+	g.Probes = append(g.Probes, probe{Class: "concurrent-genuine", Kind: "cburst", Seed: rng.U64(), Len: n, SameAs: -1, SrvSeed: rng.U64()})
+	for m := 0; m < n; m++ {
+		g.Probes = append(g.Probes, probe{Class: "replay-after-concurrent", Kind: "hs", SameAs: 0, Member: m, SrvSeed: rng.U64(), Expect: "silent"})
+	}
+	return g
+}
+
 func main() {
 	r = vlib.NewRun("C03")
 	for k, v := range obfs4.VerifConstants() {
@@ -756,6 +859,10 @@ func main() {
 		}
 	} else {
 		r.Notes["capacity_groups"] = "skipped: maxFilterSize constant missing or tiny"
+	}
+	// concurrent genuine handshakes on a fresh bridge, then their replays
+	for i, n := 0, r.Scale(100, 800); i < n; i++ {
+		groups = append(groups, genConcGroup(rng.Fork()))
 	}
 	// many bridge seeds: closeDelay as a function of the seed (one empty probe each)
 	nSeeds := r.Scale(300, 3000)
